@@ -4,7 +4,7 @@ CONSTANTS
   Faults = {"start", "run", "exit", "stop"}
   AwaitStoppingInner = TRUE
   LateStart = FALSE
-INIT InitAny
+INIT InitWide
 NEXT Next
 VIEW view
 INVARIANTS TypeOK StopOrderState FailurePropagates
